@@ -244,6 +244,12 @@ fn check_interrupted_version(
     }
     // restore of the interrupted version: expected content for every non-orphan entry
     let listing: BTreeMap<String, (u32, DEntry)> = expected.iter().map(|(b, e)| (e.apath.clone(), (*b, e.clone()))).collect();
+    // The mixed situation: the newer band recorded a SYMLINK at a path below which the older
+    // band still contributes entries. Restoring those orphans goes through the link.
+    let mixed_symlink = listing
+        .iter()
+        .any(|(p, (_, e))| e.kind == "Symlink" && listing.keys().any(|q| q.starts_with(&format!("{p}/"))));
+    let out_len_before_restore = out.len();
     let rr = w.restore(&RestoreSpec {
         band: Some(band),
         ..Default::default()
@@ -289,13 +295,32 @@ fn check_interrupted_version(
                     }
                 }
             }
-            for p in rr.snap.keys() {
+            for (p, n) in rr.snap.iter() {
                 if !listing.contains_key(p) && p != "/" {
+                    // a directory that exists only because a listed (orphaned) entry below it
+                    // needed a parent is not an entry of its own
+                    let implicit_parent = n.kind == 'd' && listing.keys().any(|q| q.starts_with(&format!("{p}/")));
+                    if implicit_parent {
+                        acc.hit("implicit_parent_of_orphan");
+                        continue;
+                    }
                     out.push(Violation::new(prop, "interrupted_restore_only_listed_entries", "extra", format!("b{band:04}: {p:?} restored but not listed")));
                 }
             }
         }
         other => out.push(Violation::new(prop, "interrupted_restore_completes", outcome_disc(other), format!("b{band:04}: {}", outcome_text(other)))),
+    }
+    if mixed_symlink && out.len() > out_len_before_restore {
+        // one class, one signature: whatever went wrong in this restore went wrong because
+        // entries of the older band were written through a symlink recorded by the newer one
+        let details: Vec<String> = out.drain(out_len_before_restore..).map(|v| format!("{}/{}: {}", v.oracle, v.disc, v.detail)).collect();
+        acc.hit("restore_through_symlink_of_newer_band");
+        out.push(Violation::new(
+            prop,
+            "interrupted_restore_content",
+            "written_through_symlink_of_newer_band",
+            format!("b{band:04}: the stitched listing holds a symlink from the interrupted band and entries below the same path from the older band; restoring them went through the link: {}", details.join(" | ")),
+        ));
     }
 }
 
